@@ -159,10 +159,18 @@ func (unescapeMapping) Span(src []byte, atEOF bool) (n int, err error) {
 			}
 			return n, transform.ErrShortSrc
 		case len(src) - 2:
-			if atEOF || !ishex(src[n+1]) {
+			if atEOF {
 				return len(src), nil
 			}
-			return n, transform.ErrShortSrc
+			if ishex(src[n+1]) {
+				return n, transform.ErrShortSrc
+			}
+			// This escape char does not start an escape sequence, but the byte
+			// after it may be an escape char that does once more data arrives
+			// (Transform stops in front of it with ErrShortSrc): have a look at it
+			// instead of declaring the rest of the input final.
+			n++
+			continue
 		}
 
 		if shouldUnescape(src[n+1 : n+3]) {
